@@ -283,3 +283,80 @@ Print Assumptions C05_pages_recomputed_refuted.
 
 Example C05_pages_guard_satisfiable : NoDup (map rts [(7, 1); (5, 2); (3, 3)]).
 Proof. repeat constructor; simpl; intuition discriminate. Qed.
+
+(* ------------------------------------------------------------------------------------------
+   Sorts served from the on-disk SORT INDEX (model/SortIdx.v follows sortindex.ReadSortIndex /
+   readLine / pastCheckpoint): file = lines in value order, line = the blocks holding the
+   records of one value; a checkpoint = (line, records of it already delivered, eof); the
+   searcher drains the reader with a batch quota per call (readFullLine for multi-key sorts).
+   Guards: wf_file = no empty line / block (the writer emits neither), quotas > 0 (the caller
+   passes max(100, limit/#segments)).
+   ------------------------------------------------------------------------------------------ *)
+From SigM Require Import SortIdx.
+From SigP Require Import SortIdxProofs.
+Open Scope nat_scope.
+
+(* one call, from ANY reachable checkpoint, with any positive quota, forward or reverse, with or
+   without readFullLine: what it delivers followed by what remains after the new checkpoint is
+   exactly what remained before - nothing skipped, nothing repeated, order kept *)
+Theorem C05_sortindex_call_exact : forall rev full file q c,
+  wf_file file = true -> wf_ckpt file c = true -> 0 < q ->
+  let '(ls, c') := read_index read_blocks rev full file q c in
+  recs_of_lines ls ++ remaining rev file c' = remaining rev file c /\ wf_ckpt file c' = true.
+Proof. exact read_index_exact. Qed.
+Print Assumptions C05_sortindex_call_exact.
+
+(* any sequence of calls *)
+Theorem C05_sortindex_drain_exact : forall rev full file qs c,
+  wf_file file = true -> wf_ckpt file c = true -> Forall (fun q => 0 < q) qs ->
+  let '(calls, c') := drain read_blocks rev full file qs c in
+  flat_map recs_of_lines calls ++ remaining rev file c' = remaining rev file c.
+Proof. exact drain_exact. Qed.
+Print Assumptions C05_sortindex_drain_exact.
+
+(* a call before eof delivers at least one record … *)
+Theorem C05_sortindex_call_progress : forall rev full file q c,
+  wf_file file = true -> wf_ckpt file c = true -> 0 < q -> snd c = false ->
+  let '(ls, c') := read_index read_blocks rev full file q c in 0 < length (recs_of_lines ls).
+Proof. exact read_index_progress. Qed.
+Print Assumptions C05_sortindex_call_progress.
+
+(* … so draining with ANY quota sequence yields every record of every value exactly once, in
+   value order (reverse: last value first), and ends at eof *)
+Theorem C05_sortindex_drain_complete : forall rev full file qs,
+  wf_file file = true -> Forall (fun q => 0 < q) qs -> length (all_recs rev file) <= length qs ->
+  let '(calls, c') := drain read_blocks rev full file qs (start_ckpt rev file) in
+  flat_map recs_of_lines calls = all_recs rev file /\ snd c' = true.
+Proof. exact drain_complete. Qed.
+Print Assumptions C05_sortindex_drain_complete.
+
+(* readFullLine (multi-key sorts): every call ends on a value boundary, so all records of a
+   first-key value reach the sort processor in ONE batch *)
+Theorem C05_sortindex_full_line_boundary : forall rev file q c,
+  wf_file file = true -> wf_ckpt file c = true -> 0 < q -> snd (fst c) = 0 ->
+  let '(ls, c') := read_index read_blocks rev true file q c in snd (fst c') = 0.
+Proof. exact full_line_boundary. Qed.
+Print Assumptions C05_sortindex_full_line_boundary.
+
+(* without readFullLine (single-key sorts) a call never delivers more than the quota *)
+Theorem C05_sortindex_quota_respected : forall rev file q c,
+  wf_file file = true -> wf_ckpt file c = true -> 0 < q ->
+  let '(ls, c') := read_index read_blocks rev false file q c in length (recs_of_lines ls) <= q.
+Proof. exact quota_respected. Qed.
+Print Assumptions C05_sortindex_quota_respected.
+
+(* the variant that takes "this block was read completely" for "the whole line was read" when the
+   quota is reached (read_blocks_blockend) reaches eof having lost records: value 0 lives in
+   blocks 0 and 1, quota 1, readFullLine - the record in block 1 is never delivered *)
+Theorem C05_sortindex_blockend_as_line_end_refuted : exists file qs,
+  wf_file file = true /\ Forall (fun q => 0 < q) qs /\ length (all_recs false file) <= length qs /\
+  let '(calls, c') := drain read_blocks_blockend false true file qs (start_ckpt false file) in
+  snd c' = true /\ flat_map recs_of_lines calls <> all_recs false file.
+Proof. exact blockend_loses_records_refuted. Qed.
+Print Assumptions C05_sortindex_blockend_as_line_end_refuted.
+
+(* non-vacuity of the guards *)
+Example C05_sortindex_guard_satisfiable :
+  wf_file [[(0%N,[0%N;1%N]); (1%N,[0%N])]; [(0%N,[2%N])]] = true /\
+  wf_ckpt [[(0%N,[0%N;1%N]); (1%N,[0%N])]; [(0%N,[2%N])]] (0, 2, false) = true.
+Proof. split; reflexivity. Qed.
